@@ -628,7 +628,7 @@ def eval_small(e, env):
         raise Undecidable("flatnonzero")
     if isinstance(e, ast.Call) and not e.keywords:
         f = call_name(e)
-        if isinstance(e.func, ast.Name) and f in ("set", "frozenset", "tuple", "list", "len", "all", "any", "bool", "sorted", "min", "max", "abs", "sum") and len(e.args) >= 1:
+        if isinstance(e.func, ast.Name) and f in ("set", "frozenset", "tuple", "list", "len", "all", "any", "bool", "sorted", "min", "max", "abs", "sum", "str") and len(e.args) >= 1:
             a0 = e.args[0]
             if len(e.args) == 1 and isinstance(a0, (ast.GeneratorExp, ast.ListComp, ast.SetComp)) and len(a0.generators) == 1 and isinstance(a0.generators[0].target, ast.Name):
                 g = a0.generators[0]
@@ -646,6 +646,8 @@ def eval_small(e, env):
                     return frozenset(args[0])
                 if f in ("tuple", "list"):
                     return tuple(args[0])
+                if f == "str" and isinstance(args[0], str):
+                    return args[0]
                 if f == "sorted":
                     return tuple(sorted(args[0]))
                 if f in ("min", "max") and len(args) > 1:
@@ -653,7 +655,20 @@ def eval_small(e, env):
                 return {"len": len, "all": all, "any": any, "bool": bool, "min": min, "max": max, "abs": abs, "sum": sum}[f](args[0])
             except Exception:
                 raise Undecidable("call " + f)
-        if isinstance(e.func, ast.Attribute) and f in ("strip", "lstrip", "rstrip", "isspace", "lower", "upper", "startswith", "endswith", "split") and len(e.args) <= 1:
+        if isinstance(e.func, ast.Attribute) and f == "join" and len(e.args) == 1:
+            recv = eval_small(e.func.value, env)
+            items = eval_small(e.args[0], env)
+            if isinstance(recv, str) and isinstance(items, (tuple, frozenset)) and all(isinstance(x, str) for x in items) and not isinstance(items, frozenset):
+                return recv.join(items)
+            raise Undecidable("join")
+        if isinstance(e.func, ast.Attribute) and f == "replace" and len(e.args) == 2:
+            recv = eval_small(e.func.value, env)
+            a_, b_ = eval_small(e.args[0], env), eval_small(e.args[1], env)
+            if isinstance(recv, str) and isinstance(a_, str) and isinstance(b_, str):
+                return recv.replace(a_, b_)
+            raise Undecidable("replace")
+        if isinstance(e.func, ast.Attribute) and f in ("strip", "lstrip", "rstrip", "isspace", "lower", "upper", "startswith", "endswith", "split", "isalnum", "isalpha", "isdigit",
+                                                       "casefold", "title", "capitalize", "swapcase") and len(e.args) <= 1:
             recv = eval_small(e.func.value, env)
             if not isinstance(recv, str):
                 raise Undecidable("string method on a non-string")
